@@ -58,6 +58,7 @@ type c12touch struct {
 	before            string // the node's answer just before the delivery
 	holder, holderRec string
 	nodeEpoch         uint64
+	ctx               string // delivery-fault context of the receiving node at delivery
 	seq               int
 	ticks             int
 	from              int
@@ -134,7 +135,7 @@ func (w *c12world) start(sl *c12slot) bool {
 	c := w.c
 	sl.gen++
 	sl.tok = &simrt.Node{Name: fmt.Sprintf("n%d.%d", sl.idx, sl.gen)}
-	sl.h = &c12handle{st: w.st, slot: sl, tok: sl.tok}
+	sl.h = &c12handle{st: w.st, slot: sl, tok: sl.tok, delivered: map[string]int{}, ownWrite: map[string]int{}}
 	sl.touch = map[string]*c12touch{}
 	sl.lastQueryPermuted = false
 	da, err := allocator.NewDistributedAllocator(w.cfg(), sl.h)
@@ -206,17 +207,18 @@ func (w *c12world) noteDead(sl *c12slot) {
 }
 
 type c12opres struct {
-	slot    *c12slot
-	kind    string
-	sub     string
-	task    *simrt.Task
-	done    bool
-	err     error
-	got     string
-	preMem  string
-	preRec  string
-	preOK   bool
-	withMAC bool
+	slot     *c12slot
+	kind     string
+	sub      string
+	task     *simrt.Task
+	done     bool
+	err      error
+	got      string
+	preMem   string
+	preRec   string
+	preOK    bool
+	withMAC  bool
+	preDeliv int // notifications for sub delivered to the node before the call
 }
 
 // pre records what memory and store said about the subscriber before the call.
@@ -225,6 +227,7 @@ func (w *c12world) pre(r *c12opres) {
 	r.preMem = w.get(sl, r.sub)
 	r.preRec = w.record(r.sub)
 	r.preOK = r.preMem == r.preRec
+	r.preDeliv = sl.h.delivered[r.sub]
 }
 
 // launch starts one API call on a node as a fenced task.
